@@ -16,8 +16,11 @@ impl vstd::std_specs::convert::FromSpecImpl<std::num::TryFromIntError> for Layou
     open spec fn from_spec(e: std::num::TryFromIntError) -> LayoutError { LayoutError { } }
 }
 impl From<std::num::TryFromIntError> for LayoutError { fn from(e: std::num::TryFromIntError) -> Self { LayoutError { } } }
+pub assume_specification [isize::abs] (x: isize) -> (r: isize) requires x > isize::MIN ensures r == (if x >= 0 { x as int } else { -x });
+pub assume_specification [i64::abs] (x: i64) -> (r: i64) requires x > i64::MIN ensures r == (if x >= 0 { x as int } else { -x });
 /// stand-ins for the prost-generated vlsir message structs (field names and types copied from the generated vlsir.raw.rs / vlsir.utils.rs)
 pub mod proto {
+    use vstd::prelude::*;
     #[derive(Debug, Clone, Copy)]
     pub struct Point { pub x: i64, pub y: i64 }
     impl Point { pub fn new(x: i64, y: i64) -> (r: Self) ensures r.x == x, r.y == y { Self { x, y } } }
@@ -29,6 +32,12 @@ pub mod proto {
     pub mod reference { pub enum To { Local(String), External(super::QualifiedName) } }
     pub struct Reference { pub to: Option<reference::To> }
     pub struct Instance { pub name: String, pub cell: Option<Reference>, pub origin_location: Option<Point>, pub reflect_vert: bool, pub rotation_clockwise_degrees: i32 }
+    // prost messages derive Default: every field its type's default
+    impl Default for Rectangle { fn default() -> (r: Self) ensures r.lower_left is None, r.width == 0, r.height == 0, r.net@.len() == 0 { Rectangle { net: String::new(), lower_left: None, width: 0, height: 0 } } }
+    impl Default for Polygon { fn default() -> (r: Self) ensures r.vertices@.len() == 0, r.net@.len() == 0 { Polygon { net: String::new(), vertices: Vec::new() } } }
+    impl Default for Path { fn default() -> (r: Self) ensures r.points@.len() == 0, r.width == 0, r.net@.len() == 0 { Path { net: String::new(), points: Vec::new(), width: 0 } } }
+    impl Default for TextElement { fn default() -> (r: Self) ensures r.loc is None, r.string@.len() == 0 { TextElement { string: String::new(), loc: None } } }
+    impl Default for Instance { fn default() -> (r: Self) ensures r.cell is None, r.origin_location is None, !r.reflect_vert, r.rotation_clockwise_degrees == 0, r.name@.len() == 0 { Instance { name: String::new(), cell: None, origin_location: None, reflect_vert: false, rotation_clockwise_degrees: 0 } } }
 }
 /// model of layout21utils::Ptr<T> (opaque shared handle); `read` yields the pointee or a lock-poison error
 pub struct Ptr<T> { pub v: Box<T> }
